@@ -149,6 +149,37 @@ def tolerance_history(values, target=0.5, tol=0.2, dt=1.0, tau=3.0, A=0.7):
     return None
 
 
+def ctor_flag_cases():
+    """every reducer class built with all four (inclusive, inplace) combinations: the history has ceil(duration/dt) +
+    inclusive slots (so view(duration) is readable exactly when inclusive), and the reducer reports the in-place flag given"""
+    from inferno.observe import (ConditionalCumulativeTraceReducer, ConditionalNearestTraceReducer, ScaledCumulativeTraceReducer,
+                                 ScaledNearestTraceReducer)
+
+    crit = lambda x: x > 0.5  # noqa: E731
+    mks = {
+        "ema": lambda **k: EMAReducer(1.0, 0.3, **k), "ca": lambda **k: CAReducer(1.0, **k), "passthrough": lambda **k: PassthroughReducer(1.0, **k),
+        "event": lambda **k: EventReducer(1.0, lambda x: x.bool(), "zero", **k),
+        "nearest": lambda **k: NearestTraceReducer(1.0, 3.0, 0.7, True, **k), "cumulative": lambda **k: CumulativeTraceReducer(1.0, 3.0, 0.7, True, **k),
+        "scaled_nearest": lambda **k: ScaledNearestTraceReducer(1.0, 3.0, 0.7, 1.5, crit, **k), "scaled_cumulative": lambda **k: ScaledCumulativeTraceReducer(1.0, 3.0, 0.7, 1.5, crit, **k),
+        "conditional_nearest": lambda **k: ConditionalNearestTraceReducer(1.0, 3.0, 0.7, 1.5, **k), "conditional_cumulative": lambda **k: ConditionalCumulativeTraceReducer(1.0, 3.0, 0.7, 1.5, **k),
+    }
+    fails, n = [], 0
+    for name, mk in mks.items():
+        for incl in (False, True):
+            for inplace in (False, True):
+                n += 1
+                r = mk(duration=2.0, inclusive=incl, inplace=inplace)
+                inp = dict(reducer=name, inclusive=incl, inplace=inplace, duration=2.0, dt=1.0)
+                want = 2 + int(incl)
+                if r.data_.recordsz != want or bool(r.data_.inclusive) != incl or bool(r.inplace) != inplace:
+                    fails.append({"what": f"C07/{name}/constructor_flags", "input": inp, "expected": dict(slots=want, inclusive=incl, inplace=inplace), "actual": dict(slots=r.data_.recordsz, inclusive=bool(r.data_.inclusive), inplace=bool(r.inplace))})
+    uniq = []
+    for f in fails:
+        if not any(u["what"] == f["what"] for u in uniq):
+            uniq.append(f)
+    return uniq, n
+
+
 def sweep(tier="quick", seed=0, unsupported=()):
     L = 5 if tier == "quick" else 7
     failures, cases = [], 0
@@ -168,6 +199,10 @@ def sweep(tier="quick", seed=0, unsupported=()):
         clears = tuple(sorted({rnd.randrange(1, n): rnd.random() < 0.5 for _ in range(2)}.items()))
         cases += 1
         add(run_history(hist, dt=rnd.choice([1.0, 0.5, 1.3]), tau=rnd.choice([2.0, 7.5]), duration=rnd.choice([0.0, 2.0, 3.9]), inplace=rnd.random() < 0.5, clears=clears))
+    fc, nc = ctor_flag_cases()
+    for f_ in fc:
+        add(f_)
+    cases += nc
     for _ in range(20 if tier == "quick" else 200):
         cases += 1
         add(tolerance_history([rnd.choice([0.5, 0.62, 0.31, 0.9, 0.05, 0.7]) for _ in range(rnd.randint(3, 8))], tol=rnd.choice([0.2, 0.125])))
@@ -200,6 +235,10 @@ def replay(contract, label, model, note=""):
 
 def replay_native(rp):
     inp = rp["input"]
+    if "reducer" in inp and "inclusive" in inp:
+        fs, _ = ctor_flag_cases()
+        hit = [f for f in fs if f["what"] == rp.get("what")]
+        return {"reproduced": bool(hit), "failure": hit[0] if hit else None}
     if "tolerance" in inp:
         f = tolerance_history(inp["values"], inp["target"], inp["tolerance"], inp["dt"], inp["tau"], inp["A"])
         return {"reproduced": f is not None, "failure": f}
